@@ -60,6 +60,13 @@ def numeric_deviations(base: dict):
         "Discrete", base["inputs"][0]["terms"][1]["name"], [v for k in range(12) for v in (k / 11, (k % 3) / 2)], 0.5))))
     out.append(("size", "engine.description=long", D._set(("description",), "a long description " * 20)))
     out.append(("size", "out0.description=long", D._set(("outputs", 0, "description"), "0123456789" * 12)))
+    # the boundary count 0 of the counting activation methods (the original receives it by assignment, see run_recipe)
+    for act in (["Highest", 0], ["Lowest", 0], ["First", 0, 0.0], ["Last", 0, 0.0]):
+        out.append(("activation", f"block0.activation={act}", D._set(("blocks", 0, "activation"), list(act))))
+    for text in (" ", "\t ", "  two  "):  # descriptions made of / wrapped in white space are kept as they are
+        out.append(("quotes", f"in0.description={text!r}", D._set(("inputs", 0, "description"), text)))
+        out.append(("quotes", f"out0.description={text!r}", D._set(("outputs", 0, "description"), text)))
+        out.append(("quotes", f"block0.description={text!r}", D._set(("blocks", 0, "description"), text)))
     for text in ("it's", 'say "hi"', "back\\slash", "tab\there", "#hash: colon"):
         out.append(("quotes", f"engine.description={text!r}", D._set(("description",), text)))
         out.append(("quotes", f"in0.description={text!r}", D._set(("inputs", 0, "description"), text)))
@@ -146,6 +153,12 @@ def run_recipe(acc: Acc, group: str, label: str, recipe: dict, aliases, formatte
         E = SPECIAL_ENGINES[recipe["special"]]()
     else:
         E = R.build(recipe, flags_by_assignment=True)  # the rebuilt engine E' goes through the constructors
+        for rb, b in zip(E.rule_blocks, recipe["blocks"]):  # ... so the original's activation parameters are assigned
+            a = b.get("activation") or ["General"]
+            if a[0] in ("Highest", "Lowest", "First", "Last") and rb.activation is not None and type(rb.activation).__name__ == a[0]:
+                rb.activation.rules = a[1]
+                if len(a) > 2:
+                    rb.activation.threshold = a[2]
     n_in = len(E.input_variables)
     base_outputs = None
     for alias, mode in itertools.product(aliases, ("repr", "encapsulated")):
